@@ -108,7 +108,7 @@ def _is_scale(e: ast.AST) -> bool:
     d = dotted(e)
     if d is None and isinstance(e, ast.Call) and not e.args:
         d = dotted(e.func)
-    return bool(d) and d.split('.')[-1].lower().endswith('timescale')
+    return bool(d) and d.split('.')[-1].lower().endswith(('timescale', 'timebase'))
 
 
 def truncated_scale_ratios(tree: ast.AST) -> tuple[list[ast.AST], list[ast.AST]]:
